@@ -87,6 +87,9 @@ var c05Stretches = []C05Stretch{
 	{Name: "dotted alias name", Pre: "{namespace a}\n{alias a", Unit: ".b", Post: "}\n", Level: -1},
 	{Name: "dotted call target", Pre: "{call a", Unit: ".b", Post: " /}", Level: 1},
 	{Name: "dotted template name", Pre: "{namespace a}\n{template .t", Unit: ".b", Post: "}x{/template}\n", Level: -1},
+	{Name: "chain of additions in a print", Pre: "{1", Unit: "+1", Post: "}", Level: 1},
+	{Name: "chain of additions in a quoted attribute", Pre: "{call .t data=\"1", Unit: "+1", Post: "\" /}", Level: 1},
+	{Name: "chain of ands in an if", Pre: "{if $x", Unit: " and $x", Post: "}y{/if}", Level: 1},
 	{Name: "nested parentheses", Pre: "{", Unit: "(", Mid: "1", Close: ")", Post: "}", Level: 1},
 	{Name: "nested lists", Pre: "{", Unit: "[", Mid: "1", Close: "]", Post: "}", Level: 1},
 	{Name: "nested if blocks", Unit: "{if $x}", Mid: "y", Close: "{/if}", Level: 1},
@@ -150,6 +153,19 @@ func checkStretch(c C05Case) Verdict {
 		s = &s2
 	}
 	small, big := s.input(s.K), s.input(8*s.K)
+	// (the long inputs are inputs too: each comes back with a tree or an error, and without a panic)
+	for _, in := range []string{small, big} {
+		var o parseOutcome
+		if !finishes(6*watchdogLimit(), func() { o = doParse(C05Case{Kind: kind, Input: []byte(in)}) }) {
+			hangExit("C05", c, fmt.Sprintf("the parse of the stretch %q (%d bytes)", s.Name, len(in)))
+		}
+		if o.panicked != nil {
+			return bad(true, "the parse of the stretch %q (%q + %q x %d + %q%q x k + %q, %d bytes) panicked: %v", s.Name, s.Pre, s.Unit, len(in)/(len(s.Unit)+len(s.Close)+1), s.Mid, s.Close, s.Post, len(in), trunc(fmt.Sprint(o.panicked), 300))
+		}
+		if (o.err == nil) == o.treeNil {
+			return bad(true, "the parse of the stretch %q (%d bytes) returned tree=nil:%v with error %v", s.Name, len(in), o.treeNil, o.err)
+		}
+	}
 	var t1, t8 time.Duration
 	slow := false
 	if !finishes(6*watchdogLimit(), func() {
